@@ -20,10 +20,10 @@ func main() {
 	rep.Rule = "development probe"
 	defer core.Cleanup()
 	core.Watchdog(120*time.Second, func(label string, since time.Duration) { core.Infra("no progress for %s while %s", since, label) })
-	ops := []string{"rb_commit", "wal_commit", "import", "halt", "recover", "drop", "backup_sync"}
+	ops := []string{"rb_commit", "wal_commit", "import", "halt", "recover", "drop", "backup_sync", "replica_apply", "replica_snapshot", "open"}
 	if s := os.Getenv("FAULTS_OPS"); s != "" {
 		ops = strings.Split(s, ",")
 	}
-	faults.Run(rep, args, faults.Select{Ops: ops, Monitors: []string{"image", "checksum", "export", "locks", "restart", "journal", "backup", "effect"}})
+	faults.Run(rep, args, faults.Select{Ops: ops, Monitors: []string{"image", "chain", "checksum", "export", "locks", "restart", "journal", "backup", "effect", "replica-image", "replica-checksum", "replica-chain", "replica-restart"}})
 	rep.Finish()
 }
